@@ -43,6 +43,13 @@ const BITS_PER_LEVEL: usize = 5;
 /// Branching factor of the trie.
 const FANOUT: u32 = 1 << BITS_PER_LEVEL;
 
+/// Verification hook: (bits per trie level, fanout).
+#[cfg(alpenglow_verif)]
+#[must_use]
+pub const fn verif_trie_params() -> (usize, u32) {
+    (BITS_PER_LEVEL, FANOUT)
+}
+
 /// Copy-on-write map from [`Address`] to [`AccountData`].
 ///
 /// See the [module documentation](self) for design details.
